@@ -28,7 +28,9 @@ REGISTERED = ("source", "dsource", "stored", "storedlit")
 
 
 # ------------------------------------------------------------------------------------------- generation
-def gen_phys_spec(rng, nmax=9):
+def gen_phys_spec(rng, nmax=9, private=False):
+    """`private`: producers and their ordering tokens are consumed by nothing but their dependent source (then the
+    outcome of a run does not depend on the schedule)."""
     base = ce.gen_cache_spec(rng, nmax=nmax)
     nodes = copy.deepcopy(base["nodes"])
     for nd in nodes:
@@ -41,7 +43,8 @@ def gen_phys_spec(rng, nmax=9):
             nd["kwargs"] = [["k%d" % j, a] for j, a in enumerate(kw)]
         if k in SOURCES and i > 0 and rng.random() < 0.45:
             # a source that merely depends on earlier nodes of ANY kind (stored calls, other sources, literals ...)
-            extra = rng.sample(range(i), min(i, rng.choice([1, 1, 2, 3])))
+            pool = [j for j in range(i) if not (private and nodes[j]["kind"] in ("producer", "token"))]
+            extra = rng.sample(pool, min(len(pool), rng.choice([1, 1, 2, 3])))
             nd["deps"] = sorted(set(nd["deps"]) | set(extra))
         if k == "lit" and rng.random() < 0.3:
             nd["kind"] = "storedlit"
@@ -50,7 +53,7 @@ def gen_phys_spec(rng, nmax=9):
     n = len(nodes)
     for nd in nodes:
         i = nd["id"]
-        if nd["kind"] in SOURCES + ("lit", "token") and i + 1 < n and rng.random() < 0.4:
+        if nd["kind"] in SOURCES + (("lit",) if private else ("lit", "token")) and i + 1 < n and rng.random() < 0.4:
             for j in rng.sample(range(i + 1, n), min(n - i - 1, rng.choice([1, 2, 3]))):
                 tgt = nodes[j]
                 if i not in tgt["args"] and i not in [a for _, a in tgt["kwargs"]] and i not in tgt["deps"]:
@@ -61,7 +64,8 @@ def gen_phys_spec(rng, nmax=9):
     if hubs and rng.random() < 0.3:
         z = rng.choice(hubs)
         i = z["id"]
-        z["deps"] = sorted(set(z["deps"]) | set(rng.sample(range(i), rng.choice([2, 2, 3]) if i >= 3 else 2)))
+        pool = [j for j in range(i) if not (private and nodes[j]["kind"] in ("producer", "token"))]
+        z["deps"] = sorted(set(z["deps"]) | set(rng.sample(pool, min(len(pool), rng.choice([2, 2, 3])))))
         for j in rng.sample(range(i + 1, n), 2):
             tgt = nodes[j]
             if i not in tgt["args"] and i not in [a for _, a in tgt["kwargs"]] and i not in tgt["deps"]:
@@ -88,8 +92,8 @@ def gen_phys_spec(rng, nmax=9):
     return {"nodes": nodes, "ops": ops, "deps": deps}
 
 
-def gen_outspec(rng, spec):
-    ids = [nd["id"] for nd in spec["nodes"]]
+def gen_outspec(rng, spec, private=False):
+    ids = [nd["id"] for nd in spec["nodes"] if not (private and nd["kind"] in ("producer", "token"))]
 
     def leaf():
         if rng.random() < 0.85:
